@@ -819,6 +819,14 @@ def extra_field_copies_stream(ctx, res):
             dup = copy.deepcopy(b)
             dup.copy_extra = "only-the-copy"
             dup.items[0].copy_note = "only-the-copy"
+            # a configuration that HAS extra fields is copied too: neither the schema nor the item schema may change by that
+            schema_fields = [sorted(s._fields), sorted(item._fields)]
+            dup_a = copy.deepcopy(a)
+            dup_a.items[0].note = "changed-on-the-copy"
+            if [sorted(s._fields), sorted(item._fields)] != schema_fields or a.items[0].note != "only-a" or sorted(dup_a._fields) != ["top_extra"]:
+                res.violate("C13:schema-changed:deepcopy", "copying a dynamic configuration that has extra fields changed the schema (or the copy shares / loses the extra fields)",
+                            dict(case, schema_fields_before=schema_fields, schema_fields_after=[sorted(s._fields), sorted(item._fields)], copy_fields=sorted(dup_a._fields)))
+                continue
             views = {"other": sorted(b.items[0]._fields), "declared": sorted(declared._fields), "later": sorted(later.items[0]._fields),
                      "other-root": sorted(b._fields), "later-root": sorted(later._fields), "original-of-copy": sorted(b.items[0]._fields) + sorted(b._fields)}
             unknown = b.items[0].note                  # an unknown key of a dynamic configuration reads as None
